@@ -81,7 +81,7 @@ def offset_queries(t, path):
     return ops
 
 
-def random_program(rng, t, n):
+def random_program(rng, t, n, queries=True):
     ops = []
     single = ["par", "fc", "fct", "lc", "lct", "ns", "nst", "ps", "pst", "ft", "lt", "nt", "pt"]
     for _ in range(n):
@@ -93,10 +93,10 @@ def random_program(rng, t, n):
             ops.append("%s:%d:%d" % (rng.choice(["ch", "cht"]), reg, rng.below(5)))
         elif r < 80:
             ops.append("%s:%d:%d" % (rng.choice(["nca", "ncta", "pcb", "pctb"]), reg, rng.below(len(ops) + 1)))
-        elif r < 88:
+        elif r < 88 and queries:
             total = t.root.length()
             ops.append("tao:0:%d" % rng.below(total + 1))
-        elif r < 94:
+        elif r < 94 and queries:
             total = t.root.length()
             a = rng.below(total + 1)
             ops.append("cov:0:%d:%d" % (a, a + rng.below(total - a + 1)))
